@@ -166,10 +166,24 @@ def gen_program(seed, nfuncs=24, runs_per_fn=6):
 PROBES = r'''package main
 
 import (
+	"os"
 	"runtime"
 	_ "sync"
 	_ "sync/atomic"
 )
+
+// an unrecovered panic raised by a deferred call while runtime.Goexit is unwinding must crash the
+// program (exit status 2) after the remaining deferred calls have run
+func goexitPanic() {
+	never := make(chan int)
+	go func() {
+		defer func() { println("last deferred call runs") }()
+		defer func() { panic("boom while exiting") }()
+		runtime.Goexit()
+	}()
+	<-never
+	println("PROGRAM SURVIVED an unrecovered panic")
+}
 
 func inner() { println("inner recover", recover() != nil) }
 
@@ -346,6 +360,10 @@ func wrap(name string, f func()) {
 }
 
 func main() {
+	if len(os.Args) > 1 && os.Args[1] == "goexitpanic" {
+		goexitPanic()
+		return
+	}
 	wrap("nested", nested)
 	wrap("direct", direct)
 	wrap("helperRecover", helperRecover)
@@ -366,27 +384,5 @@ func main() {
 	wrap("rfNamedOnly", func() { println("rfNamed", rfNamed1(), rfNamed2()) })
 	wrap("runtimeFault", func() { println("runtimeFault", runtimeFault()) })
 	wrap("goexit", goexitProbe)
-}
-'''
-
-
-# an unrecovered panic raised by a deferred call while runtime.Goexit is unwinding must crash the program (exit status 2)
-GOEXIT_PANIC = r'''package main
-
-import (
-	"runtime"
-	_ "sync"
-	_ "sync/atomic"
-)
-
-func main() {
-	never := make(chan int)
-	go func() {
-		defer func() { println("last deferred call runs") }()
-		defer func() { panic("boom while exiting") }()
-		runtime.Goexit()
-	}()
-	<-never // the crash of the goroutine above must end the process (exit status 2)
-	println("PROGRAM SURVIVED an unrecovered panic")
 }
 '''
